@@ -1423,3 +1423,31 @@ pub fn drive_heap<T: Reg + Encode + Decode>(ctx: &mut Ctx) {
 		}
 	}
 }
+
+// ------------------------------------------------------------------ C11: adversarially deep input on a small stack
+
+/// `unit` is the byte pattern that opens one more nesting level of the recursive type, `leaf`
+/// closes the innermost one.  Decoding runs on a thread with a 1 MiB stack.
+pub fn drive_deep<T: Reg + Decode + Send + 'static>(ctx: &mut Ctx, unit: &[u8], leaf: &[u8]) {
+	let tn = T::name();
+	if !ctx.wants(&tn) {
+		return;
+	}
+	let levels_list: &[usize] = if ctx.tier == "thorough" { &[10, 33, 1000, 100_000, 1_000_000] } else { &[10, 33, 1_000_000] };
+	for &levels in levels_list {
+		let mut inp = Vec::with_capacity(levels * unit.len() + leaf.len());
+		for _ in 0..levels { inp.extend_from_slice(unit); }
+		inp.extend_from_slice(leaf);
+		for limit in [32u32, 8, 0] {
+			let data = inp.clone();
+			let h = std::thread::Builder::new().stack_size(1 << 20).spawn(move || {
+				let mut s = &data[..];
+				let r = guarded(|| T::decode_with_depth_limit(limit, &mut s));
+				match r { Ok(Ok(v)) => { std::mem::forget(v); "ok" }, Ok(Err(_)) => "err", Err(()) => "panic" }
+			}).expect("spawn");
+			let res = h.join().unwrap_or("thread-died");
+			let rec = json!({"k":"deep","tn":tn,"levels":levels,"limit":limit,"res":res,"sig":[levels, limit]});
+			ctx.emit(&tn, rec);
+		}
+	}
+}
